@@ -9,9 +9,10 @@ wraps another one through a mount).
 A harness run is a *skeleton* (concrete sequence of op kinds, enumerated by the
 generator) whose operands are solver variables:
 
-    R  register_path(LOCS[l], PATHS[p], data_type=TYPES[t])      -> DataLocation #k
+    R  register_path(LOCS[l], PATHS[p], data_type=TYPES[t])
     I  invalidate_location(LOCS[l], PATHS[p])
-    X  register_relation(DL[a], DL[b])        (DL = results of the earlier R ops)
+    X  register_relation(a, b)   a, b = the registry's current DataLocation of the
+                                 (location, path) of two earlier R ops (any ordered pair)
 
 After the last op the registry is queried on EVERY (location, path) pair and
 compared with a tiny one-sided reference model (see `_Model`). Skeletons of
@@ -37,13 +38,15 @@ EXPLANATION = (
 )
 ASSUMPTIONS = [
     "StubContext with two stubs that the exercised code paths touch: checkpoint_manager.register(data_location) is a no-op (DummyCheckpointManager behaviour) and deployment_manager.get_connector(name) returns an opaque token (RemoteStreamFlowPath.__init__ only stores it); no scheduler is consulted by the code under test",
-    "get_source_location runs on lib.detloop.DetLoop (its awaits are DataLocation.available events, all set by register_path)",
-    "a location is identified by (deployment, name) as the registry does; tables: quick 2 locations, thorough 3 locations (same deployment/different name, different deployment/same name, one local) plus a variant where one location wraps another through the mount /a/b -> /b",
+    "get_source_location is driven directly with coroutine.send (no event loop): its only awaits are DataLocation.available events, all set by register_path; a suspension would be reported as a violation",
+    "a location is identified by (deployment, name) as the registry does; location tables: 'D' two deployments with the same location name (the second one local), 'S' one deployment with two location names, '1' a single location, 'T' (thorough) three locations combining S and D, 'W' (thorough) three deployments where location 2 wraps location 0 through the mount /a/b -> /b (register_path then registers and relates the inner copy itself)",
     "paths are normalised absolute posix paths from a concrete tree of depth <= 3 over the alphabet {a, b} (plus the root '/'); relpath is left to its default (the path itself)",
     "data types of registrations are PRIMARY or SYMBOLIC_LINK (registering a path as INVALID is outside the claim)",
     "invalidate_location is only applied to a path for which some registration at or beneath it was made before on any location (the registry raises KeyError for a path it has never seen; the statement is silent about that case) — other operand choices end the run vacuously",
-    "register_relation operands are DataLocation objects previously returned by register_path (as streamflow.cwl.utils and transfer_data use it); clause (v) is only demanded when both objects are not INVALID and both registrations are currently available according to the model",
-    "one-sided model: after invalidate(L,p) availability of other paths of L outside the subtree of p is only demanded while L has not been involved in any relation (relations share DataLocation objects between nodes, so the code's relation semantics may invalidate related copies on the same location; the statement does not forbid that); after a relate op every earlier 'must be unavailable' expectation is dropped (a related copy makes the path reported again)",
+    "register_relation operands are designated by (location, path) of two earlier registrations and resolved to the DataLocation the registry currently reports for them (what a caller obtains from get_data_locations); if one of them is not currently reported the run ends vacuously; stale handles of invalidated registrations and duplicate DataLocation objects that register_path returns without storing them are outside the claim",
+    "relating a directory to its own ancestor/descendant directory on the same location (a link loop) is outside the claim",
+    "clause (v): right after relate(a, b) the registry reports, for a's path on b's location, an entry with b's path, and vice versa (this is the only effect of register_relation the statement refers to: 'related to such a registration')",
+    "one-sided model: after invalidate(L,p) the registry must report nothing for p and for every path registered beneath p on L; availability of other paths of L outside the subtree of p is only demanded while L has not been involved in any relation (relations share DataLocation objects between nodes, so the code may invalidate related copies on the same location; the statement does not forbid that); register_relation links dst with every DataLocation stored at src's node, so every location that has src's path registered counts as involved; after a relate op every earlier 'must be unavailable' expectation is dropped (a related copy makes the path reported again); the negative direction is only asserted for locations never involved in a relation: a path never registered (nor an ancestor of a registered path) there is not reported",
     "clause (iv) is read as: the result is a non-INVALID PRIMARY element of get_data_locations(path), and it is None only when no such element exists; the preference order (same deployment, local, any) is not part of the claim",
     "_RemotePathMapper.remove_location is not exercised (no caller in /repo, not part of the statement)",
 ]
@@ -65,13 +68,24 @@ T_ALL = (
 # path tables (index = solver variable). "/" first: the root directory is an
 # ancestor of everything (tests/test_data_manager.py invalidates from the root).
 PATH_TABLES = {
+    "P3": ["/", "/a", "/b"],
+    "P4": ["/", "/a", "/a/b", "/b"],
     "P5": ["/", "/a", "/a/b", "/a/b/a", "/b"],
     "P7": ["/", "/a", "/a/b", "/a/b/a", "/a/a", "/b", "/b/a"],
 }
-# every query sweep looks at all of these (superset of both tables)
-ALL_PATHS = ["/", "/a", "/a/b", "/a/b/a", "/a/a", "/b", "/b/a"]
-
 MOUNT_SRC, MOUNT_DST = "/a/b", "/b"
+
+
+def _query_paths(variant: str, table: str) -> list:
+    """Paths looked at by every query sweep: the op table, closed under the mount for 'W'."""
+    out = list(PATH_TABLES[table])
+    if variant == "W":
+        for p in PATH_TABLES[table]:
+            if _under(p, MOUNT_SRC):
+                q = MOUNT_DST + p[len(MOUNT_SRC):]
+                if q not in out:
+                    out.append(q)
+    return out
 
 
 def _locations(variant: str):
@@ -176,10 +190,9 @@ class _Model:
     def register(self, l, p):
         self._reg(l, p)
         inner = _inner(self.variant, l, p)
-        if inner is not None:
+        if inner is not None:  # register_path relates the wrapped copy itself
             self._reg(inner[0], inner[1])
-            self.related.add(l)
-            self.related.add(inner[0])
+            self.relate(l, p, inner[0], inner[1])
 
     def invalidate(self, l, p):
         for key in list(self.must):
@@ -187,16 +200,23 @@ class _Model:
             if kl != l:
                 continue
             if _under(q, p):
-                self.must[key] = False
+                # p itself and every *registered* path beneath it
+                if q == p or key in self.registered:
+                    self.must[key] = False
+                else:
+                    del self.must[key]
             elif l in self.related:
                 del self.must[key]
-        for q in ALL_PATHS:
-            if _under(q, p):
-                self.must[(l, q)] = False
+        self.must[(l, p)] = False
 
-    def relate(self, la, lb):
+    def relate(self, la, pa, lb, pb):
+        # register_relation links dst with EVERY DataLocation stored at src's node:
+        # own registrations of pa on any location, or copies related earlier
         self.related.add(la)
         self.related.add(lb)
+        for (l, q) in self.registered:
+            if q == pa:
+                self.related.add(l)
         for key in list(self.must):
             if self.must[key] is False:
                 del self.must[key]
@@ -209,29 +229,55 @@ def _key(loc):
     return (loc.deployment, loc.name)
 
 
-def _snapshot(dm, locs, skip):
+def _current(dm, loc, p):
+    """The registry's current entry for path p on loc (what a caller gets from a lookup)."""
+    for d in dm.get_data_locations(p, loc.deployment, loc.name):
+        if d.path == p:
+            return d
+    return None
+
+
+def _snapshot(dm, locs, skip, qpaths):
     """Raw registry content (INVALID entries included) for every location but `skip`."""
     out = []
     for li, loc in enumerate(locs):
         if li == skip:
             continue
-        for q in ALL_PATHS:
+        for q in qpaths:
             for d in dm.path_mapper.get(q, None, loc.deployment, loc.name):
                 out.append((li, q, id(d), d.path, d.data_type, d.deployment, d.name))
     return out
 
 
+def _drive(coro):
+    """Run a coroutine that must not suspend (every DataLocation.available event is set)."""
+    try:
+        coro.send(None)
+    except StopIteration as e:
+        return e.value
+    coro.close()
+    raise RuntimeError("get_source_location suspended: it waits on a DataLocation that is never made available")
+
+
+def _pick(v, n):
+    """Realise a solver integer in 0..n-1 as a plain int (one solver path per value)."""
+    for i in range(n):
+        if v == i:
+            return i
+    return None  # grouped obligations: the slot is wider than this history needs
+
+
 def _run(variant, table, skel, args, explain=False):
     """Returns None if every clause holds, else a short clause label."""
-    from lib.detloop import DetLoop
     from streamflow.core.data import DataType
 
     TYPES = [DataType.PRIMARY, DataType.SYMBOLIC_LINK]
-    paths = PATH_TABLES[table]
+    paths = PATH_TABLES[table]  # operands
+    qpaths = _query_paths(variant, table)  # queries
     locs = _locations(variant)
     dm = _new_manager()
     model = _Model(variant)
-    dls = []  # results of R ops: (DataLocation, loc index, path)
+    dls = []  # designators of the R ops: (loc index, path)
     pos = 0
     last = len(skel) - 1
     before = None
@@ -239,39 +285,43 @@ def _run(variant, table, skel, args, explain=False):
     last_rel = None
     for k, op in enumerate(skel):
         if op == "R":
-            li, pi, ti = args[pos], args[pos + 1], args[pos + 2]
+            li, pi, ti = _pick(args[pos], len(locs)), _pick(args[pos + 1], len(paths)), _pick(args[pos + 2], 2)
             pos += 3
+            if li is None or pi is None or ti is None:
+                return None
             loc, p, t = locs[li], paths[pi], TYPES[ti]
-            li, pi = int(li), int(pi)
-            dl = dm.register_path(loc, p, data_type=t)
-            dls.append((dl, li, p))
+            dm.register_path(loc, p, data_type=t)
+            dls.append((li, p))
             model.register(li, p)
         elif op == "I":
-            li, pi = args[pos], args[pos + 1]
+            li, pi = _pick(args[pos], len(locs)), _pick(args[pos + 1], len(paths))
             pos += 2
+            if li is None or pi is None:
+                return None
             loc, p = locs[li], paths[pi]
-            li = int(li)
             if p not in model.nodes:
                 return None  # outside the claim (never-seen path): vacuous
             if k == last:
-                before = _snapshot(dm, locs, li)
+                before = _snapshot(dm, locs, li, qpaths)
                 last_inval = li
             dm.invalidate_location(loc, p)
             model.invalidate(li, p)
         elif op == "X":
-            ai, bi = args[pos], args[pos + 1]
+            ai, bi = _pick(args[pos], len(dls)), _pick(args[pos + 1], len(dls))
             pos += 2
-            a, la, pa = dls[ai]
-            b, lb, pb = dls[bi]
-            demand = (
-                a.data_type != DataType.INVALID
-                and b.data_type != DataType.INVALID
-                and model.must.get((la, pa)) is True
-                and model.must.get((lb, pb)) is True
-            )
+            if ai is None or bi is None:
+                return None
+            la, pa = dls[ai]
+            lb, pb = dls[bi]
+            if la == lb and pa != pb and (_under(pa, pb) or _under(pb, pa)):
+                return None  # a directory related to its own ancestor on one location: outside the claim
+            a = _current(dm, locs[la], pa)
+            b = _current(dm, locs[lb], pb)
+            if a is None or b is None:
+                return None  # operand not currently registered: outside the claim
             dm.register_relation(a, b)
-            model.relate(la, lb)
-            if k == last and demand:
+            model.relate(la, pa, lb, pb)
+            if k == last:
                 last_rel = (la, pa, lb, pb)
         else:
             raise ValueError(op)
@@ -283,7 +333,7 @@ def _run(variant, table, skel, args, explain=False):
 
     # ---- (i)/(iii), (ii) and the negative direction, on every pair
     for li, loc in enumerate(locs):
-        for q in ALL_PATHS:
+        for q in qpaths:
             got = dm.get_data_locations(q, loc.deployment, loc.name)
             for d in got:
                 if d.data_type == DataType.INVALID or _key(d) != _key(loc):
@@ -300,7 +350,7 @@ def _run(variant, table, skel, args, explain=False):
                     return fail("never:reported-without-registration")
     # ---- (ii) frame: the last invalidation changed nothing on other locations
     if last_inval is not None:
-        if _snapshot(dm, locs, last_inval) != before:
+        if _snapshot(dm, locs, last_inval, qpaths) != before:
             return fail("ii:other-location-changed")
     # ---- (v) relation: each side is reported at the other's path
     if last_rel is not None:
@@ -317,7 +367,7 @@ def _run(variant, table, skel, args, explain=False):
     verdict = []
 
     async def sources():
-        for q in ALL_PATHS:
+        for q in qpaths:
             valid = dm.get_data_locations(q)
             for dep in deployments:
                 r = await dm.get_source_location(q, dep)
@@ -333,9 +383,7 @@ def _run(variant, table, skel, args, explain=False):
                         verdict.append("iv:source-not-primary")
                         return
 
-    loop = DetLoop()
-    with loop:
-        loop.run_until_complete(sources())
+    _drive(sources())
     if verdict:
         return fail(verdict[0])
     return None
@@ -358,127 +406,83 @@ def _stale_valid_paths(dm) -> bool:
     return walk(dm.path_mapper._filesystem)
 
 
-def prop_seq(variant, table, skel, args) -> bool:
-    return _run(variant, table, skel, args) is None
+def prop_seq(variant, table, skels, sel, args) -> bool:
+    """skels[sel] is the history (sel is a solver variable when an obligation groups several short histories)."""
+    k = _pick(sel, len(skels))
+    if k is None:
+        return True
+    return _run(variant, table, skels[k], args) is None
 
 
-def explain_seq(variant, table, skel, args):
-    return _run(variant, table, skel, args, explain=True)
-
-
-def _finding_key(call: str):
-    """Clause label of a counterexample call `h(...)` (evaluated natively)."""
-    import re
-
-    m = re.search(r"prop_seq\((.*)\)\s*$", _finding_key.calls.get(call.split("(")[0], ""), re.S)
-    return None
+def explain_seq(variant, table, skels, sel, args):
+    return _run(variant, table, skels[sel], args, explain=True)
 
 
 # ---------------------------------------------------------------- obligations
 
 IMPORTS = "from harness.C21 import *"
+OPS = {"R": "register", "I": "invalidate", "X": "relate"}
 
 
-def _arity(op):
-    return {"R": 3, "I": 2, "X": 2}[op]
-
-
-def _valid_skeleton(skel) -> bool:
-    """First op registers; X needs at least one earlier R; no leading I/X."""
-    if skel[0] != "R":
-        return False
-    return True
-
-
-def _skeletons(max_len):
+def _skeletons(lengths, alphabet="RIX", need=""):
+    """Skeletons of the given lengths that start with a registration
+    (invalidate/relate need an earlier registration to refer to)."""
     out = []
-    for n in range(1, max_len + 1):
-        for sk in itertools.product("RIX", repeat=n):
-            if _valid_skeleton(sk):
-                out.append("".join(sk))
+    for n in lengths:
+        for sk in itertools.product(alphabet, repeat=n):
+            s = "".join(sk)
+            if s[0] == "R" and all(c in s for c in need):
+                out.append(s)
     return out
 
 
-def _count(skel, nl, npth, fixed):
-    """Number of operand combinations (= expected solver paths, roughly)."""
-    total = 1
-    nr = 0
+def _operands(variant, table, skel, fixed_type):
+    """[(variable name, range)] in skeleton order; range 1 = concrete 0."""
+    nl = N_LOCS[variant]
+    npth = len(PATH_TABLES[table])
+    out, nr = [], 0
     for k, op in enumerate(skel):
         if op == "R":
-            c = nl * npth * 2
+            out += [(f"l{k}", nl), (f"p{k}", npth), (f"t{k}", 1 if fixed_type else 2)]
             nr += 1
         elif op == "I":
-            c = nl * npth
+            out += [(f"l{k}", nl), (f"p{k}", npth)]
         else:
-            c = nr * nr
-        total *= c
-    for f in fixed:
-        total //= f
+            out += [(f"a{k}", nr), (f"b{k}", nr)]
+    return out
+
+
+def _count(operands, fix) -> int:
+    total = 1
+    for v, r in operands:
+        if v not in fix:
+            total *= r
     return total
 
 
-def _mk_spec(variant, table, skel, fix=None, cond=900, group=None):
-    """fix: dict var name -> concrete value (partition)."""
-    fix = fix or {}
-    nl = N_LOCS[variant]
-    npth = len(PATH_TABLES[table])
-    params, pre, argv = [], [], []
-    nr = 0
-    desc = []
-    for k, op in enumerate(skel):
-        if op == "R":
-            names = [(f"l{k}", nl), (f"p{k}", npth), (f"t{k}", 2)]
-            nr += 1
-        elif op == "I":
-            names = [(f"l{k}", nl), (f"p{k}", npth)]
-        else:
-            names = [(f"a{k}", nr), (f"b{k}", nr)]
-        for v, hi in names:
-            if v in fix:
-                argv.append(str(fix[v]))
-            elif hi == 1:
-                argv.append("0")
-            else:
-                params.append(f"{v}: int")
-                pre.append(f"0 <= {v} < {hi}")
-                argv.append(v)
-    if not params:  # keep one solver variable so the harness has a precondition
-        params.append("z: int")
-        pre.append("0 <= z < 1")
-    call = f"prop_seq({variant!r}, {table!r}, {skel!r}, [{', '.join(argv)}])"
-    fx = "".join(f"_{v}{fix[v]}" for v in sorted(fix))
-    name = f"{variant}_{table}_{skel}{fx}"
-    ops = {"R": "register", "I": "invalidate", "X": "relate"}
-    bound = (
-        f"skeleton {'-'.join(ops[o] for o in skel)}; location table {variant!r} ({nl} locations), path table {PATH_TABLES[table]}; "
-        "every operand (location, path, data type PRIMARY/SYMBOLIC_LINK, related DataLocation pair) ranges over its whole table"
-        + (f"; partition: {', '.join(f'{v}={fix[v]}' for v in sorted(fix))}" if fix else "")
-        + f"; all {len(ALL_PATHS)} paths x {nl} locations queried after the last op"
-    )
-    return Spec(
-        name=name,
-        group=group or _group(skel),
-        source=mk_source(IMPORTS, ", ".join(params), pre, call),
-        cond=cond,
-        path=60,
-        bound=bound,
-        symbolic=f"{len(params)} operand indexes",
-        targets=T_ALL,
-        finding_key=_make_key(variant, table, skel, [a for a in argv], [p.split(':')[0] for p in params]),
-    )
+def _partition(operands, limit):
+    """Fix leading path/location operands concretely until a part has <= limit combinations."""
+    fixable = [(v, r) for v, r in operands if r > 1 and v[0] in "pl"]
+    chosen, total = [], _count(operands, {})
+    for v, r in fixable:
+        if total <= limit:
+            break
+        chosen.append((v, r))
+        total = -(-total // r)
+    return [dict(zip([v for v, _ in chosen], combo)) for combo in itertools.product(*[range(r) for _, r in chosen])]
 
 
 def _group(skel):
     if "X" in skel:
-        return "histories with relations"
+        return "histories with relations: related copies are reported, invalidation and re-registration stay consistent"
     if "I" in skel:
-        return "register / invalidate / re-register histories"
-    return "registration makes the path and its ancestors available"
+        return "register / invalidate / re-register histories (subtree invalidated, other locations untouched, re-registration restores)"
+    return "registration makes the path and all its ancestor directories available on that location only"
 
 
-def _make_key(variant, table, skel, argv, pnames):
+def _make_key(variant, table, skels, argv, pnames):
     def key(call: str):
-        # call looks like h(l0, p0, ...) with concrete values, positional or keyword
+        """Root cause / clause label of a counterexample `h(...)`, evaluated natively (diagnosis only)."""
         import ast
 
         try:
@@ -488,66 +492,132 @@ def _make_key(variant, table, skel, argv, pnames):
                 env[name] = ast.literal_eval(a)
             for kw in node.keywords:
                 env[kw.arg] = ast.literal_eval(kw.value)
-            vals = [int(a) if a.lstrip("-").isdigit() else env[a] for a in argv]
-            return explain_seq(variant, table, skel, vals)
+            vals = [env[a] if a in env else int(a) for a in argv]
+            label = explain_seq(variant, table, skels, vals[0], vals[1:])
         except Exception as e:  # diagnosis must never break the run
             return "explain-failed:" + type(e).__name__
+        if label is not None and label.endswith("[stale-valid_paths]"):
+            return "stale-valid_paths"
+        return label
 
     return key
 
 
-def _partition(variant, table, skel, limit):
-    """Split on leading operands until every part has <= limit combinations."""
+def _mk_spec(variant, table, skels, fixed_type, fix):
+    """One obligation for a group of skeletons (a solver variable selects the skeleton)."""
+    per = [_operands(variant, table, sk, fixed_type) for sk in skels]
     nl = N_LOCS[variant]
-    npth = len(PATH_TABLES[table])
-    order = []  # (var, range) in skeleton order
-    for k, op in enumerate(skel):
-        if op == "R":
-            order += [(f"p{k}", npth), (f"l{k}", nl), (f"t{k}", 2)]
-        elif op == "I":
-            order += [(f"p{k}", npth), (f"l{k}", nl)]
-    total = _count(skel, nl, npth, [])
-    chosen = []
-    for v, r in order:
-        if total <= limit:
-            break
-        if r > 1:
-            chosen.append((v, r))
-            total = -(-total // r)
-    if not chosen:
-        return [{}]
-    out = []
-    for combo in itertools.product(*[range(r) for _, r in chosen]):
-        out.append({v: c for (v, _), c in zip(chosen, combo)})
-    return out
+    if len(skels) == 1:
+        operands = per[0]
+        n = _count(operands, fix)
+    else:  # generic operand slots, each as wide as the widest skeleton needs
+        width = max(len(o) for o in per)
+        operands = [(f"x{j}", max(o[j][1] for o in per if j < len(o))) for j in range(width)]
+        n = sum(_count(o, {}) for o in per)
+    params, pre, argv = [], [], []
+    narrow = []
+    if len(skels) > 1:
+        params.append("sel: int")
+        pre.append(f"0 <= sel < {len(skels)}")
+        argv.append("sel")
+        # a history that needs a narrower range than the shared slot offers
+        for k, o in enumerate(per):
+            for j, (_, r) in enumerate(o):
+                if r < operands[j][1]:
+                    narrow.append(f"sel != {k} or x{j} < {r}")
+    else:
+        argv.append("0")
+    for v, r in operands:
+        if v in fix:
+            argv.append(str(fix[v]))
+        elif r == 1:
+            argv.append("0")
+        else:
+            params.append(f"{v}: int")
+            pre.append(f"0 <= {v} < {r}")
+            argv.append(v)
+    pre += narrow
+    call = f"prop_seq({variant!r}, {table!r}, {tuple(skels)!r}, {argv[0]}, [{', '.join(argv[1:])}])"
+    name = f"{variant}_{table}_{'+'.join(skels)}" + ("_prim" if fixed_type else "") + "".join(f"_{v}{fix[v]}" for v in fix)
+    hist = " | ".join(" -> ".join(OPS[o] for o in sk) for sk in skels)
+    bound = (
+        f"histories {hist}; location table {variant!r} ({nl} locations), path table {PATH_TABLES[table]}; "
+        "each register/invalidate picks any location and any path, each relate any ordered pair of the earlier registrations"
+        + ("; every registration has data type PRIMARY" if fixed_type else "; every registration is PRIMARY or SYMBOLIC_LINK")
+        + (f"; partition: {', '.join(f'{v}={c}' for v, c in fix.items())}" if fix else "")
+        + f" ({n} operand combinations); all {len(_query_paths(variant, table))} paths {_query_paths(variant, table)} x {nl} locations queried after the last op"
+    )
+    return Spec(
+        name=name,
+        group=_group("".join(skels)),
+        source=mk_source(IMPORTS, ", ".join(params), pre, call),
+        cond=200 + n // 2,
+        path=60,
+        bound=bound,
+        symbolic=f"{len(params)} solver integers (skeleton selector / location / path / data type / related pair)",
+        targets=T_ALL,
+        finding_key=_make_key(variant, table, tuple(skels), argv, [q.split(":")[0] for q in params]),
+    )
+
+
+def _plan(tier):
+    """(variant, table, skeleton groups, data type fixed to PRIMARY?)
+
+    A group (list) of skeletons is ONE obligation whose first solver variable
+    selects the skeleton; a single skeleton may be partitioned on its leading operands."""
+    one = lambda sks: [[s] for s in sks]
+    short = ["R", "RR", "RI", "RX"]
+    small3 = ["RIX", "RXR", "RXI", "RXX"]
+    if tier == "quick":
+        return [
+            # depth-3 tree, two deployments (one local): every history of length <= 2, both data types
+            ("D", "P5", [short], False),
+            # every history of length 3 except pure registration (thorough tier)
+            ("D", "P5", [["RRI"], ["RIR"], ["RII"], ["RRX"] + small3], True),
+            # same deployment, two location names: invalidation must respect the name
+            ("S", "P4", [["RI", "RRI", "RIR"]], True),
+            # relations on one location (links): histories of length 4 and the re-registration history
+            ("1", "P3", [["RRXI", "RRIX", "RXIR", "RXRI", "RIXR", "RRXR"]], True),
+            ("1", "P3", [["RRXIR"], ["RIRRX"]], True),
+        ]
+    return [
+        ("D", "P5", [short, small3] + one(["RRI", "RIR", "RII", "RRX"]), False),
+        ("D", "P5", [["RRR"]], True),
+        ("S", "P5", [short], False),
+        ("S", "P5", [small3] + one(["RRI", "RIR", "RII", "RRX"]), True),
+        ("T", "P4", [short], False),
+        ("T", "P4", [small3] + one(["RRI", "RIR", "RII", "RRX"]), True),
+        ("W", "P5", [short], False),
+        ("W", "P5", [small3] + one(["RRI", "RIR", "RII", "RRX"]), True),
+        (
+            "1",
+            "P5",
+            [
+                ["RRRX"],
+                ["RRIX", "RRXI"],
+                ["RRXR", "RRXX"],
+                ["RIRX"],
+                ["RIIX", "RIXR", "RIXI", "RIXX", "RXRR", "RXRI", "RXRX", "RXIR", "RXII", "RXIX", "RXXR", "RXXI", "RXXX"],
+            ],
+            True,
+        ),
+        ("1", "P4", one(["RRXIR", "RRXII", "RRXIX", "RRXRI", "RIRXR", "RIRXI", "RRIRX", "RIRRX", "RRRXI", "RXIRX"]), True),
+        ("D", "P4", one(["RRIR"]), True),
+    ]
 
 
 def specs(tier: str):
-    out = []
-    quick = tier == "quick"
-    if quick:
-        plan = [
-            # (variant, table, max_len, extra skeletons)
-            ("S", "P5", 3),
-            ("D", "P5", 3),
-        ]
-        limit = 3000
-    else:
-        plan = [
-            ("T", "P7", 3),
-            ("W", "P7", 3),
-            ("S", "P5", 4),
-            ("D", "P5", 4),
-        ]
-        limit = 3000
-    seen = set()
-    for variant, table, max_len in plan:
-        for skel in _skeletons(max_len):
-            if "X" in skel and skel.index("X") < 1:
-                continue
-            for fix in _partition(variant, table, skel, limit):
-                s = _mk_spec(variant, table, skel, fix)
-                if s.name not in seen:
-                    seen.add(s.name)
-                    out.append(s)
+    limit = 750 if tier == "quick" else 2400
+    out, seen = [], set()
+    for variant, table, groups, fixed_type in _plan(tier):
+        for skels in groups:
+            if len(skels) == 1:
+                parts = _partition(_operands(variant, table, skels[0], fixed_type), limit)
+            else:
+                parts = [{}]
+            for fix in parts:
+                sp = _mk_spec(variant, table, skels, fixed_type, fix)
+                if sp.name not in seen:
+                    seen.add(sp.name)
+                    out.append(sp)
     return out
